@@ -326,9 +326,18 @@ func CrashThenShrink(rng *rand.Rand, k int, kind string) *History {
 // appended), in both file-age regimes, and one regeneration must follow. nOutputs is an upper
 // bound of outputs; indices beyond the actual number wrap around.
 func CorruptEveryOutput(rng *rand.Rand, lopts LayoutOpts, nOutputs int) []*History {
+	return CorruptEveryOutputTag(rng, lopts, nOutputs, "")
+}
+
+// CorruptEveryOutputTag: the same enumeration with the given build tag (and its negation as
+// output constraint) instead of a drawn one; "" keeps what DrawLayout drew.
+func CorruptEveryOutputTag(rng *rand.Rand, lopts LayoutOpts, nOutputs int, tag string) []*History {
 	spec := DrawLayout(rng, 1+rng.IntN(3), lopts)
 	for hasPathConflict(spec) {
 		spec = DrawLayout(rng, 1+rng.IntN(3), lopts)
+	}
+	if tag != "" {
+		spec.Tag, spec.TagList = tag, ""
 	}
 	w := spec.World("corrupt-every-output")
 	bumped := spec.Bump()
